@@ -584,6 +584,14 @@ Linear_Expression_Impl<Row>
                  Coefficient_traits::const_reference c1,
                  Coefficient_traits::const_reference c2,
                  dimension_type start, dimension_type end) {
+  if (static_cast<const void*>(&y) == static_cast<const void*>(this)) {
+    // Aliased operands: c1*x + c2*x == (c1 + c2)*x on [start, end).
+    PPL_DIRTY_TEMP_COEFFICIENT(c);
+    c = c1;
+    c += c2;
+    mul_assign(c, start, end);
+    return;
+  }
   Parma_Polyhedra_Library::linear_combine(row, y.row, c1, c2, start, end);
   PPL_ASSERT(OK());
 }
@@ -599,6 +607,14 @@ Linear_Expression_Impl<Row>
   PPL_ASSERT(start <= end);
   PPL_ASSERT(end <= row.size());
   PPL_ASSERT(end <= y.row.size());
+  if (static_cast<const void*>(&y) == static_cast<const void*>(this)) {
+    // Aliased operands: c1*x + c2*x == (c1 + c2)*x on [start, end).
+    PPL_DIRTY_TEMP_COEFFICIENT(c);
+    c = c1;
+    c += c2;
+    mul_assign(c, start, end);
+    return;
+  }
   if (c1 == 0) {
     if (c2 == 0) {
       PPL_ASSERT(c1 == 0);
